@@ -251,6 +251,16 @@ Definition chk (c : streams * list (rop * xp)) : bool := replay (mkR (fst c) [] 
       chk.violation('oracle', 'the same Linen program with the same seeds handed out other keys on a later apply (nn.jit cache hit vs the apply that traced)', {'case': c, 'observed': runs})
     elif len({tuple(k) for k in runs[0]}) != len(runs[0]):
       chk.violation('oracle', 'one key was handed out twice within one apply under nn.jit', {'case': c, 'observed': runs[0]})
+  # several Rngs objects in one model holding streams of the same name: reseed restarts each of them
+  rm = [{'nblocks': rng.randint(2, 3), 'draws_before': [rng.randint(0, 3) for _ in range(3)], 'draws_after': rng.randint(1, 3), 'seed': rng.randint(40, 60)} for _ in range(12 if thorough else 4)]
+  rr = common.run_impl('impl_c09.py', {'reseed_multi': rm})['reseed_multi']
+  for c, r in zip(rm, rr):
+    chk.count({'reseed_multi': c}, True)
+    if 'err' in r:
+      chk.violation('oracle', 'nnx.reseed on a model with several Rngs objects raised %s' % r['err'], {'case': c, 'tb': r.get('tb')})
+    elif not all(b['restarted'] for b in r['ok']):
+      chk.violation('oracle', 'nnx.reseed did not restart every stream of the given name (a model built from separate nnx.Rngs objects): after reseed the draws are not fold_in(key(seed), 0..)',
+                    {'case': c, 'observed': r['ok']})
   pr = common.run_impl('impl_c09_probe.py', {})
   if pr['F8']['collides']:
     what = "with flax_fix_rng_separator, suffixes ('x', 0x610001) and ('x', 'a', 1) are hashed to the same key (an int count whose bytes contain 0x00)"
